@@ -534,6 +534,9 @@ func (ex *Exec) indexAddr(fr *Frame, st *State, x *ssa.IndexAddr) Val {
 		return Elt(s.F[0].(*Term), Add(s.F[1].(*Term), idx))
 	case *types.Pointer:
 		at := u.Elem().Underlying().(*types.Array)
+		if at.Len() > maxArrayLen {
+			unsupp("indexing an array of %d elements (arrays longer than %d are not modelled)", at.Len(), maxArrayLen)
+		}
 		ex.oblige(fr, st, "index", ex.exprText(x.Pos(), x.X.Name()), And(Ge(idx, IntT(0)), Lt(idx, IntT(at.Len()))), x.Pos(), "array index in range")
 		switch p := base.(type) {
 		case *LocalPtr:
